@@ -62,3 +62,9 @@ package imageblk
 //@   requires_off
 //@   modifies *
 //@   assert at "buf := make([]byte, numBytes, numBytes)": span >= 0 && numBytes >= 0 && int64(numBytes) == int64(blockBytes) * int64(span)
+
+// ServeHTTP (C11, C20), structural contract: no variable of the request dispatcher is written by a
+// goroutine it starts and also used by the dispatcher afterwards (see neuronjson.Data.ServeHTTP).
+//@ func Data.ServeHTTP
+//@   prop C11 C20
+//@   structural
